@@ -33,6 +33,7 @@ RULE = ('Hypothesis generates per-file packages (n_wav 2..4 quick / 2..7 thoroug
         'window and single-wavelength windows then occur); (cube) = a requested wavelength that is not tabulated.')
 RULE += (' ' + 'Relation: a tabulated wavelength lying exactly on a window end is emitted for all such windows or for none (a window that is refused emits nothing).')
 RULE += (' ' + 'The window ends are handed over as quantities in micron, nm, mm, cm or Angstrom.')
+RULE += (' ' + 'History: the two halves of the spectrum are convolved by two successive windowed calls into the same directory.')
 ASSUMPTIONS = [
     'a wavelength exactly on a window end may be present or absent (docstring says above/below, the property says inside)',
     'for a window that holds no tabulated wavelength an exception is accepted, but no file may be written',
@@ -176,14 +177,14 @@ def run_mono(case, ctx):
                         aidx = convpkg.stored_ap_index(pkg)
                         if pkg['apertures'] is not None:
                             if t['apertures'] is None or len(t['apertures']) != nap or \
-                                    any(abs(a - pkg['apertures'][aidx[p_]]) > 1e-12 * a for p_, a in enumerate(t['apertures'])):
+                                    any(not (abs(a - pkg['apertures'][aidx[p_]]) <= 1e-12 * a) for p_, a in enumerate(t['apertures'])):
                                 fail('%s: %s apertures %r' % (what, fn, t['apertures']), 'c16:apertures')
                         for row, name in enumerate(t['names']):
                             m = names.index(name)
                             for p_ in range(nap):
                                 a = aidx[p_]
                                 wf, we = pkg['flux'][m][a][iw], pkg['err'][m][a][iw]
-                                if abs(t['flux'][row][p_] - wf) > 1e-12 * abs(wf) or abs(t['err'][row][p_] - we) > 1e-12 * abs(we):
+                                if not (abs(t['flux'][row][p_] - wf) <= 1e-12 * abs(wf)) or not (abs(t['err'][row][p_] - we) <= 1e-12 * abs(we)):
                                     fail('%s: %s row %s aperture %d holds %r +- %r, the SED of %s at %r micron has %r +- %r' % (
                                         what, fn, name, a, t['flux'][row][p_], t['err'][row][p_], name, w, wf, we), 'c16:wrong_cell')
                     # the returned table names exactly those files
@@ -194,7 +195,7 @@ def run_mono(case, ctx):
                     if sorted(named) != sorted(fn[:-5] for fn in files):
                         fail('%s: returned table names %r, files written %r' % (what, sorted(named), files), 'c16:table_names')
                     for w, (fn, t) in got.items():
-                        if abs(named[fn[:-5]] - w) > 1e-9 * w:
+                        if not (abs(named[fn[:-5]] - w) <= 1e-9 * w):
                             fail('%s: returned table maps %s to %r micron, the file holds %r' % (what, fn, named[fn[:-5]], w), 'c16:table_wavelength')
                     summary = sorted((fn, round(w, 9)) for w, (fn, t) in got.items() if w in inside)
                     if reference_files is None:
@@ -230,6 +231,23 @@ def run_mono(case, ctx):
                          'c16:stale_table_order')
             labels.add('table_reordered_in_place')
             nruns += 1
+        # a large grid is convolved window by window (one job per part of the spectrum) into the same directory: each call
+        # writes the files of its own window, whatever the earlier calls left there
+        if todo is None and nw >= 2:
+            cdir = os.path.join(d, 'convolved')
+            if os.path.isdir(cdir):
+                shutil.rmtree(cdir)
+            mid = math.sqrt(wav[nw // 2 - 1] * wav[nw // 2])
+            for kw2, part in (({'wav_min': mid * u.micron}, 'upper'), ({'wav_max': mid * u.micron}, 'lower')):
+                with must_succeed('convolve_model_dir_monochromatic for the %s part of the spectrum (split at %r micron) into a '
+                                  'directory holding the files of the other part' % (part, mid)), quiet():
+                    convolve_model_dir_monochromatic(d, **kw2)
+            have = sorted(pkgio.read_convolved(os.path.join(cdir, fn))['filtwav'] for fn in os.listdir(cdir))
+            if len(have) != nw or any(not (abs(a - b) <= 1e-9 * b) for a, b in zip(have, sorted(wav))):
+                fail('two calls for the two parts of the spectrum (split at %r micron) left files for %r, the SEDs hold %r' % (
+                    mid, have, sorted(wav)), 'c16:wavelength_missing')
+            labels.add('window_by_window_into_one_directory')
+            nruns += 2
     ctx.labels['runs'] += nruns
     return labels, nw >= 3 and nm >= 2
 
